@@ -506,7 +506,51 @@ where
     }
 }
 
+/// The proposal "draws from N(from, std^2 I)": every draw is a finite number, for every seed.
+/// Seeding and drawing are cheap, so millions of seeds are tried (a generator that maps one
+/// uniform word in 2^24 to an infinite deviate shows up here).
+fn finite_case<F: Fl + std::ops::AddAssign>(ctx: &Ctx, rep: &mut Report, case: u64, g: &mut Sm64)
+where
+    IsotropicGaussian<F>: Proposal<F, F>,
+{
+    let mon = "isotropic";
+    let budget: u64 = if ctx.thorough { 1 << 22 } else { 1 << 21 };
+    let base = if g.bool() { 0 } else { g.next_u64() };
+    let std = F::of(g.log_uniform(1e-3, 1e3));
+    let from = vec![F::zero(); 8];
+    let mut worst = 0.0f64;
+    for k in 0..budget {
+        let seed = base.wrapping_add(k);
+        let mut p = IsotropicGaussian::<F>::new(std).set_seed(seed);
+        for rep_i in 0..3 {
+            let y = p.sample(&from);
+            for v in &y {
+                let z = (v.to_f64().unwrap() / std.to_f64().unwrap()).abs();
+                if !(z < 1e6) {
+                    rep.violation(&format!("IsotropicGaussian<{}> sample-returns-a-non-finite-or-absurd-value", F::NAME), mon, case,
+                        json!({"seed": seed, "std": std.to_f64().unwrap(), "call": rep_i, "sample": y.iter().map(|x| fj(x.to_f64().unwrap())).collect::<Vec<_>>()}));
+                    return;
+                }
+                worst = worst.max(z);
+            }
+        }
+    }
+    rep.evals(budget);
+    rep.count_n("proposal_seeds_scanned_for_non_finite_draws", budget);
+    rep.max("largest_standardised_draw_seen", worst);
+    rep.held();
+    rep.distinct(("finite", F::NAME, base));
+}
+
 pub fn run(ctx: &Ctx, rep: &mut Report) {
+    for c in ctx.case_ids("finite", 4, 64) {
+        let mut g = ctx.rng("finite", c);
+        if c % 2 == 0 {
+            finite_case::<f64>(ctx, rep, c, &mut g);
+        } else {
+            finite_case::<f32>(ctx, rep, c, &mut g);
+        }
+    }
     let e32 = f32::EPSILON as f64;
     // (the tensor-based targets deliver f32-level accuracy on every backend: the statement's own
     // tolerance; burn's from_floats quantises their constants to f32)
